@@ -332,7 +332,6 @@ func shortEvent(e Event) string {
 var _ = fmt.Sprint
 var _ = token.NoPos
 
-
 // buildBlock constructs an output block through the package's own API — mkBlock(kind), then
 // markCombined + push(stmt, kind) per statement — so that the rules do not depend on how the
 // block type represents its state (field names, flags as bools or bits).
@@ -407,7 +406,6 @@ func blockHasConst(st *State, b AV, c AV) bool {
 	}
 	return false
 }
-
 
 // blockMarkMethod discovers, by behaviour, the method of *block that records "the combine check has
 // run": the niladic method without results after which a second push does not trip push's assertion
